@@ -205,7 +205,7 @@ func Concurrent(profile string, baseSeed int64, n int, tier, keep, self, raceBin
 			tmp, _ := ioutil.TempFile(tmpRoot(), "verif-conc-")
 			tmp.Close()
 			defer os.Remove(tmp.Name())
-			cmd := exec.Command(bin, "one", "-profile", profile, "-seed", fmt.Sprint(seed), "-tier", tier, "-trace", tmp.Name(), "-readers", fmt.Sprint(rd))
+			cmd := exec.Command(bin, "one", "-profile", profile, "-seed", fmt.Sprint(seed), "-tier", tier, "-trace", tmp.Name(), "-readers", fmt.Sprint(rd), "-lightproj")
 			cmd.Env = append(append(os.Environ(), "GOTRACEBACK=all"), extraEnv...) // SIGQUIT on a hang dumps every goroutine
 			out, err := runChild(cmd, childTimeout)
 			return readLines(tmp.Name()), out, err, tmp.Name()
